@@ -195,6 +195,33 @@ func initKinds() {
 	k.add(`"\x7f"`, false, "\x7f", nil)
 	k.add(`"日本語"`, false, "日本語", nil)
 	k.add("128*'x'", false, string(make128('x')), nil) // long-form length
+	// Systematic part of the string alphabet (extended level: every 1-field struct x every option, i.e. untyped and
+	// under each string-type parameter). The PrintableString/UTF8String decision for an untyped string is made per
+	// RUNE: per UTF-8 length class one rune whose low byte (rune & 0xff) is a PrintableString character and one whose
+	// low byte is not, alone and mixed with ASCII; the first/last runes around the 1->2-byte and U+00FF/U+0100 borders;
+	for _, sv := range []struct {
+		l string
+		q bool
+		v string
+	}{
+		{`"ł"(2-byte, low byte 'B')`, true, "ł"}, {`"ałb"`, false, "ałb"},
+		{`""`, false, ""}, {`"ÿ"`, false, "ÿ"}, {`"Ā"(low byte 00)`, false, "Ā"}, {`"aĀ"`, false, "aĀ"},
+		{`"中"(3-byte, low byte '-')`, false, "中"}, {`"☺"(3-byte, low byte ':')`, false, "☺"}, {`"x 中"`, false, "x 中"},
+		{`"€"(3-byte, low byte ac)`, false, "€"}, {`"a€"`, false, "a€"},
+		{`"👁"(4-byte, low byte 'A')`, false, "👁"}, {`"a👁"`, false, "a👁"},
+		{`"😀"(4-byte, low byte 00)`, false, "😀"}, {`"a😀"`, false, "a😀"},
+		{`"􏿿"`, false, "􏿿"},
+	} {
+		k.add(sv.l, sv.q, sv.v, nil)
+	}
+	// every edge character of the PrintableString set on its own (first/last letter and digit, each punctuation
+	// character) and the excluded ASCII characters next to them
+	for _, ch := range "AZaz09 '()+,-./:=?" {
+		k.add(`"`+string(ch)+`"(printable)`, false, string(ch), nil)
+	}
+	for _, ch := range "*@&_!\"#$%;<>[`{~" {
+		k.add(`"`+string(ch)+`"(not printable)`, false, string(ch), nil)
+	}
 	k.dflt = 1
 
 	k = reg(newKind("[]byte", kBytes, []byte(nil), nil, 4))
